@@ -29,6 +29,19 @@ Proof.
   - destruct (is_mark t); reflexivity.
 Qed.
 
+Lemma compat_dec t v : {compat t v} + {is_mark v = true /\ v <> t}.
+Proof.
+  unfold compat. destruct (is_mark v) eqn:E.
+  - destruct (Z.eq_dec v t); [left; auto|right; auto].
+  - left. discriminate.
+Qed.
+
+Lemma update_time_conflict t v d : is_mark v = true -> v <> t -> update_time t v d = Panic PMark.
+Proof.
+  intros Hm Hne. unfold update_time. rewrite Hm.
+  replace (t =? v) with false by (symmetry; apply Z.eqb_neq; auto). reflexivity.
+Qed.
+
 Lemma update_time_self t d : update_time t t d = Ok (rep t t d).
 Proof. apply update_time_compat. intros _. reflexivity. Qed.
 
@@ -105,6 +118,46 @@ Proof.
     cbn [andb]. destruct (update_time t cv (- dlt)) as [r|c]; [|eauto].
     replace (ck >=? P) with true by (symmetry; apply Z.geb_le; lia).
     apply IH; auto. simpl; lia.
+Qed.
+
+(* deleting a line that carries the merge mark with another tick panics *)
+Lemma tail_loop_conflict : forall rest cur origin prevOrigin lefts reps,
+  inc (fst cur) rest -> P < fst cur -> ~ compat_list t Q cur rest ->
+  exists c, del_loop t P ins del origin prevOrigin lefts cur rest reps = Panic c.
+Proof.
+  induction rest as [|nxt rest' IH]; intros cur origin prevOrigin lefts reps Hinc Hcur Hn.
+  - exfalso. apply Hn. exact I.
+  - destruct cur as [ck cv]. destruct nxt as [nk nv]. destruct Hinc as [Hnk Hinc].
+    rewrite del_loop_unfold. cbn [fst snd compat_list] in *.
+    destruct (Z.ltb_spec ck Q) as [Hlt|Hge]; [|exfalso; apply Hn; exact I].
+    assert (Hd : Z.min nk (P + del) - Z.max ck P > 0) by (unfold Q in *; lia).
+    set (dlt := Z.min nk (P + del) - Z.max ck P) in *.
+    replace (dlt =? 0) with false by (symmetry; apply Z.eqb_neq; lia).
+    replace (dlt <=? 0) with false by (symmetry; apply Z.leb_gt; lia).
+    cbn [andb]. destruct (compat_dec t cv) as [Hc|[Hm Hne]].
+    + rewrite (update_time_compat t cv _ Hc). cbv zeta.
+      replace (ck >=? P) with true by (symmetry; apply Z.geb_le; lia).
+      apply IH; [exact Hinc | simpl; lia | intros H; apply Hn; split; auto].
+    + rewrite (update_time_conflict t cv _ Hm Hne). eexists; reflexivity.
+Qed.
+
+Lemma first_loop_conflict : forall R ok ov prevOrigin L reps,
+  ok <= P -> inc ok R -> first_gt P R -> ~ compat_list t Q (ok, ov) R ->
+  exists c, del_loop t P ins del (ok, ov) prevOrigin L (ok, ov) R reps = Panic c.
+Proof.
+  intros R ok ov prevOrigin L reps Hok Hinc Hgt Hn.
+  destruct R as [|[nk nv] R']; [exfalso; apply Hn; exact I|].
+  simpl in Hgt. destruct Hinc as [Hnk Hinc]. rewrite del_loop_unfold. cbn [fst snd compat_list] in *.
+  replace (ok <? Q) with true in Hn by (symmetry; apply Z.ltb_lt; unfold Q; lia).
+  assert (Hd : Z.min nk (P + del) - Z.max ok P > 0) by lia.
+  set (dlt := Z.min nk (P + del) - Z.max ok P) in *.
+  replace (dlt =? 0) with false by (symmetry; apply Z.eqb_neq; lia).
+  replace (dlt <=? 0) with false by (symmetry; apply Z.leb_gt; lia).
+  cbn [andb]. destruct (compat_dec t ov) as [Hc|[Hm Hne]].
+  - rewrite (update_time_compat t ov _ Hc). cbv zeta.
+    destruct (ok >=? P);
+      (apply tail_loop_conflict; [exact Hinc | simpl; lia | intros H; apply Hn; split; auto]).
+  - rewrite (update_time_conflict t ov _ Hm Hne). eexists; reflexivity.
 Qed.
 
 (* tail phase: every examined node starts after P *)
